@@ -374,6 +374,11 @@ func (e *Env) write(name string, v interface{}) error {
 	if !f.CanSet() {
 		return ErrFault
 	}
+	if v != nil && reflect.TypeOf(v) == f.Type() && (f.Kind() == reflect.Slice || f.Kind() == reflect.Map) {
+		// a slice / map value of exactly the field's type replaces the field's value as a whole
+		f.Set(reflect.ValueOf(v))
+		return nil
+	}
 	cv, ok := ConvertTo(v, f.Type(), true)
 	if !ok {
 		return ErrUndefined
